@@ -22,16 +22,16 @@ import (
 )
 
 type universe struct {
-	nodes, nodeIDs                     []string
-	svcNames, svcIDs                   []string
-	checkIDs, sessIDs, sessNames       []string
-	keys, prefixes                     []string
-	queryIDs, providerIDs              []string
-	peers, peerIDs                     []string
-	policyIDs, roleIDs, tokenAcc       []string
-	tokenSec, ruleIDs, methods         []string
-	ixnIDs, dcs, metaKeys, rootIDs     []string
-	secretIDs                          []string
+	nodes, nodeIDs                 []string
+	svcNames, svcIDs               []string
+	checkIDs, sessIDs, sessNames   []string
+	keys, prefixes                 []string
+	queryIDs, providerIDs          []string
+	peers, peerIDs                 []string
+	policyIDs, roleIDs, tokenAcc   []string
+	tokenSec, ruleIDs, methods     []string
+	ixnIDs, dcs, metaKeys, rootIDs []string
+	secretIDs                      []string
 }
 
 var uni = &universe{
@@ -1400,7 +1400,9 @@ func corpusWideSecrets() []wcmd {
 	}
 	id, name := uni.peerIDs[0], uni.peers[0]
 	sec := func(n int) string { return fmt.Sprintf("5ec7e702-0000-0000-0000-%012d", n) }
-	sw := func(r *pbpeering.SecretsWriteRequest) []byte { return mustEncodeProto(structs.PeeringSecretsWriteType, r) }
+	sw := func(r *pbpeering.SecretsWriteRequest) []byte {
+		return mustEncodeProto(structs.PeeringSecretsWriteType, r)
+	}
 	gen := func(e string) *pbpeering.SecretsWriteRequest {
 		return &pbpeering.SecretsWriteRequest{PeerID: id, Request: &pbpeering.SecretsWriteRequest_GenerateToken{
 			GenerateToken: &pbpeering.SecretsWriteRequest_GenerateTokenRequest{EstablishmentSecret: e}}}
@@ -1418,14 +1420,14 @@ func corpusWideSecrets() []wcmd {
 		DeletedAt: timestamppb.New(baseTime.Add(time.Hour))}}
 	return []wcmd{
 		mk(2, "peering:write", "peering write peer1 (accepting) with GenerateToken E1", mustEncodeProto(structs.PeeringWriteType, pw)), // E
-		mk(4, "peering:secrets:exchange", "secrets exchange E1 -> pending P1", sw(exch(sec(1), sec(2)))),                                // P
-		mk(5, "peering:secrets:generate", "secrets generate E2 while P1 is pending", sw(gen(sec(3)))),                                   // EP
-		mk(6, "peering:secrets:promote", "secrets promote P1 -> active", sw(prom(sec(2)))),                                              // EA
-		mk(8, "peering:secrets:exchange", "secrets exchange E2 -> pending P2 (pending and active present)", sw(exch(sec(3), sec(4)))),    // PA
-		mk(9, "peering:secrets:generate", "secrets generate E3 (establishment, pending and active present)", sw(gen(sec(5)))),           // EPA
-		mk(10, "peering:secrets:promote", "secrets promote P2 -> active (frees P1)", sw(prom(sec(4)))),                                  // EA
-		mk(12, "peering:secrets:exchange", "secrets exchange E3 -> pending P3", sw(exch(sec(5), sec(6)))),                               // PA
-		mk(14, "peering:secrets:promote", "secrets promote P3 -> active (frees P2)", sw(prom(sec(6)))),                                  // A
+		mk(4, "peering:secrets:exchange", "secrets exchange E1 -> pending P1", sw(exch(sec(1), sec(2)))),                               // P
+		mk(5, "peering:secrets:generate", "secrets generate E2 while P1 is pending", sw(gen(sec(3)))),                                  // EP
+		mk(6, "peering:secrets:promote", "secrets promote P1 -> active", sw(prom(sec(2)))),                                             // EA
+		mk(8, "peering:secrets:exchange", "secrets exchange E2 -> pending P2 (pending and active present)", sw(exch(sec(3), sec(4)))),  // PA
+		mk(9, "peering:secrets:generate", "secrets generate E3 (establishment, pending and active present)", sw(gen(sec(5)))),          // EPA
+		mk(10, "peering:secrets:promote", "secrets promote P2 -> active (frees P1)", sw(prom(sec(4)))),                                 // EA
+		mk(12, "peering:secrets:exchange", "secrets exchange E3 -> pending P3", sw(exch(sec(5), sec(6)))),                              // PA
+		mk(14, "peering:secrets:promote", "secrets promote P3 -> active (frees P2)", sw(prom(sec(6)))),                                 // A
 		mk(16, "peering:write", "peering write peer1 state=DELETING", mustEncodeProto(structs.PeeringWriteType, del)),
 		mk(18, "peering:delete", "peering delete peer1", mustEncodeProto(structs.PeeringDeleteType, &pbpeering.PeeringDeleteRequest{Name: name})),
 	}
